@@ -9,7 +9,10 @@ import (
 	"math/rand"
 	"sort"
 	"strings"
+	"sync"
 	"time"
+
+	tss "github.com/IBM/TSS/types"
 
 	"verifharness/backend"
 	"verifharness/cluster"
@@ -245,7 +248,7 @@ func c06oracle(c *rcluster, cs c06case, sc sessCfg, res sessResult) (string, str
 }
 
 func unitC06(e common.Env, p *common.Part) {
-	p.Rule = "scripted key-generation + signing sessions over PRNG membership maps (shifted, random injective, 1..3 replicas per party with a PRNG choice of the participating replica, duplicate party; in every third case the party assignment of the same nodes is replaced between sessions on the same scheme objects), loud (real disc.Member), barrier and silent mode, session sizes 2..5, random delivery policies; in every second case the membership has a further member that takes part in nothing and the protocol instances also address point-to-point messages to every party no participant represents and to a party the membership does not know (nothing may be transmitted for those); distinct key = (map, participants, mode, phase); non-trivial when the map is not the identity on the participants"
+	p.Rule = "scripted key-generation + signing sessions over PRNG membership maps (shifted, random injective, 1..3 replicas per party with a PRNG choice of the participating replica, duplicate party; in every third case the party assignment of the same nodes is replaced between sessions on the same scheme objects), loud (real disc.Member), barrier and silent mode, session sizes 2..5, random delivery policies; in every fifth case the Membership function hands out its own table, which is updated in place (two participants' party identifiers swapped) while the session runs; in every second case the membership has a further member that takes part in nothing and the protocol instances also address point-to-point messages to every party no participant represents and to a party the membership does not know (nothing may be transmitted for those); distinct key = (map, participants, mode, phase); non-trivial when the map is not the identity on the participants"
 	p.Assumptions = append(p.Assumptions, "exactly the expected number of members invoke each call; quick tier: ids <= 250 (large ids are C13's subject), thorough: full 16-bit range incl. byte boundaries")
 	n := e.Pick(140, 12000)
 	for i := 0; i < n; i++ {
@@ -273,7 +276,11 @@ func unitC06(e common.Env, p *common.Part) {
 			}
 			cs.Map[nx] = px
 		}
-		c := newRCluster(cluster.Config{Map: cs.Map, Silent: cs.Mode == "silent", Barrier: cs.Mode == "barrier", Threshold: len(cs.Callers) - 1}, rng, pol)
+		// every fifth case: the application's Membership function hands out its own table, and the table is updated IN PLACE while a
+		// session is running (the party identifiers of two participating nodes are swapped once the first protocol instance is being
+		// initialised, i.e. after every node has read the membership for this call, and swapped back when the calls have returned)
+		liveSwap := !cs.Dup && i%5 == 0 && len(cs.Callers) >= 2 && cs.Mode != "silent" // (silent mode has no first synchronisation: a node may still be reading the membership when another one initialises its instance)
+		c := newRCluster(cluster.Config{Map: cs.Map, Silent: cs.Mode == "silent", Barrier: cs.Mode == "barrier", Threshold: len(cs.Callers) - 1, LiveTable: liveSwap}, rng, pol)
 		script := backend.Script{Rounds: []uint8{1, 2}, Bcast: true, P2P: true, Filler: func(r uint8, d uint16) int { return int(r) * int(d%7) }}
 		nonIdentity := false
 		for _, u := range cs.Callers {
@@ -361,7 +368,28 @@ func unitC06(e common.Env, p *common.Part) {
 					c.Schemes[u].SetStoredData([]byte("share-of-x"))
 				}
 			}
+			var swapOnce sync.Once
+			swapped := false
+			swap := func() {
+				c.MutateLive(func(m map[tss.UniversalID]tss.PartyID) {
+					a, b := tss.UniversalID(cs.Callers[0]), tss.UniversalID(cs.Callers[1])
+					m[a], m[b] = m[b], m[a]
+				})
+			}
+			if liveSwap {
+				sc.Script.InitHook = func(uint16) {
+					swapOnce.Do(func() { swap(); swapped = true })
+				}
+			}
 			res := c.run(sc)
+			if liveSwap {
+				c.drain(20 * time.Millisecond)
+				swapOnce.Do(func() {})
+				if swapped {
+					swap() // back
+					p.Count("sessions_with_the_membership_table_updated_in_place", 1)
+				}
+			}
 			phase := "dkg"
 			if sign {
 				phase = "sign"
